@@ -60,7 +60,8 @@ SAFE_PATTERNS = [
     (r'PIZZA\W+HUT', ['PIZZA  HUT', 'PIZZA-HUT 1', 'PIZZAHUT']),
     ('SPOTIFY', ['Spotify USA', 'SPOTIFY P1', 'spotifi']),
     (r'[^A-Z]7-ELEVEN', ['#7-ELEVEN 3', 'A7-ELEVEN']),
-    (r'CAF\S', ['CAFE ROMA', 'CAF ROMA']),
+    (r'CAF\S', ['CAFE ROMA', 'CAF ROMA', 'CAFÃ‰ ROMA', 'CafÃ© Roma']),
+    ('æ±äº¬', ['æ±äº¬ STORE 12', 'TOKYO STORE']),
 ]
 # patterns whose quoting / legacy treatment is expected to go wrong (one hazard each)
 HAZ_BACKSLASH = [
@@ -78,7 +79,7 @@ HAZ_CASE = [('UBER (?-i:Eats)', ['UBER Eats', 'UBER EATS']), ('STRASSE', ['straÃ
 
 AMOUNT_VALUES = ['50', '99.99', '12.5', '100.00', '0.5', '1000', '7.0078125', '20.00', '3']
 MERCHANTS = ['Netflix', 'Uber Eats', "Trader Joe's", 'H&M', 'AT&T: Wireless', 'Cafe Rio', 'A, B', 'X [1]', '#hash', 'Amazon',
-             'Costco', '7-Eleven', 'key = value', 'Big "Q" Store']
+             'Costco', '7-Eleven', 'key = value', 'Big "Q" Store', 'CafÃ© Rio â‚¬']
 CATEGORIES = ['Food', 'Bills: Utilities', 'Shopping', 'Transport', 'Subscriptions', 'Unknown', 'Health & Fitness']
 SUBCATS = ['Groceries', 'Streaming', '', 'Ride: Share', 'Coffee', 'Online']
 TAGSETS = [[], [], ['business'], ['a', 'b'], ['Business', 'reimbursable'], ['multi word'], ['x-1', 'Y_2', 'z.3'], ['recurring'],
@@ -332,6 +333,9 @@ def oracle_tables(res):
     return {'lit': {p: u for p, u in res.get('lit', [])}, 're': {(p, d): v for p, d, v in res.get('re', [])}}
 
 
+UNALIGNED = [0]
+
+
 def analyse(case, res):
     """Returns list of failures: dicts {txn index, culprits [(rule index, preds)], signature}."""
     fails = pair_failures(res)
@@ -341,6 +345,8 @@ def analyse(case, res):
     loaded = res.get('loaded') or []
     alone = res.get('alone') or []
     aligned = len(loaded) == len(alone) and all(a.get('n_loaded') == 1 for a in alone)
+    if not aligned:
+        UNALIGNED[0] += 1
     out = []
     for i in fails:
         culprits = []
@@ -506,6 +512,14 @@ Definition check (c : case_t) : list nat :=
             | LOk ers => if res_ok (engine_classify re ers t) xmig then [] else [5%nat]
             | _ => []
             end))) txs)).
+(* how many generated rules lie inside the guard of c14_conversion_preserves_partial (whole-file sub-cases only) *)
+Definition safe_count (l : list case_t) : nat * nat :=
+  fold_right (fun (c : case_t) acc =>
+    let '(rules, _, text, _, _, _) := c in
+    match text with
+    | Some _ => (fst acc + length (filter safe_rule rules), snd acc + length rules)%nat
+    | None => acc
+    end) (0, 0)%nat l.
 Fixpoint failing (i : nat) (l : list case_t) : list (nat * list nat) :=
   match l with [] => [] | c :: r => match check c with [] => failing (S i) r | e => (i, e) :: failing (S i) r end end.
 '''
@@ -729,7 +743,7 @@ def model_check(cases, results, today, stats, chunk=120):
     for off in range(0, len(terms), chunk):
         part = terms[off:off + chunk]
         body = ''.join(f'Definition c{i} : case_t :=\n{t}.\n' for i, t in enumerate(part))
-        body += 'Definition cases : list case_t := [' + '; '.join(f'c{i}' for i in range(len(part))) + '].\nEval vm_compute in failing 0 cases.\n'
+        body += 'Definition cases : list case_t := [' + '; '.join(f'c{i}' for i in range(len(part))) + '].\nEval vm_compute in failing 0 cases.\nEval vm_compute in safe_count cases.\n'
         jobs.append((f'C14_{off // chunk}', body))
     bad = []
     with ThreadPoolExecutor(max_workers=4) as ex:
@@ -738,6 +752,10 @@ def model_check(cases, results, today, stats, chunk=120):
         m = re.search(r'=\s*(\[.*\])\s*:\s*list \(nat \* list nat\)', out, re.S)
         if rc != 0 or not m:
             return None, where, (out + errt)[-1500:]
+        ms = re.search(r'=\s*\((\d+)(?:%nat)?,\s*(\d+)(?:%nat)?\)\s*:\s*nat \* nat', out)
+        if ms:
+            stats['rules_inside_guard'] = stats.get('rules_inside_guard', 0) + int(ms.group(1))
+            stats['rules_in_coq_files'] = stats.get('rules_in_coq_files', 0) + int(ms.group(2))
         txt = m.group(1).replace('%nat', '')
         for mm in re.finditer(r'\((\d+),\s*\[([^\]]*)\]\)', txt):
             bad.append((where[k * chunk + int(mm.group(1))], [int(x) for x in mm.group(2).replace(' ', '').replace('\n', '').split(';') if x]))
@@ -875,7 +893,7 @@ def main(tier):
         broken.append({'kind': 'hygiene', 'detail': res['hygiene']})
 
     today = datetime.date.today()
-    n = 170 if tier == 'quick' else 4000
+    n = 220 if tier == 'quick' else 4000
     wit = witness_cases()
     cases = wit + gen_cases(run.seed, n, today)
     out = run_files(cases, timeout=3000)
@@ -937,6 +955,32 @@ def main(tier):
                 broken.append({'kind': 'witness-not-reproduced', 'obligation': 'refutation witness ' + c['expect'],
                                'detail': {'csv': c['csv'], 'txn': c['txns'], 'got': sorted(got)}})
 
+    # ---- model vs implementation inside Coq
+    model_bad, where = [], []
+    lit_bad, lit_n = [], 0
+    if res['ok']:
+        mb, where, errt = model_check(cases, results, today.toordinal(), stats)
+        if mb is None:
+            broken.append({'kind': 'broken-correspondence', 'obligation': 'model_vs_impl(C14.Model, merchant_engine/merchant_utils)',
+                           'detail': 'cases.v did not evaluate: ' + errt})
+        elif mb:
+            (ci, label), codes = mb[0]
+            names = {1: 'generated text differs', 2: 'parsed-back rules differ', 3: 'regex table incomplete', 4: 'legacy classification differs',
+                     5: 'migrated classification differs'}
+            sub = results[ci] if label == 'file' else results[ci]['alone'][int(label[4:])]
+            broken.append({'kind': 'broken-correspondence', 'obligation': 'model_vs_impl(C14.Model, merchant_engine/merchant_utils)',
+                           'detail': {'what': [names.get(x, x) for x in sorted(set(codes))], 'sub_case': label, 'csv': cases[ci]['csv'],
+                                      'txns': cases[ci]['txns'], 'implementation': {k: sub.get(k) for k in ('content', 'load', 'legacy', 'migrated', 'engine_rules')},
+                                      'n_disagreeing_sub_cases': len(mb)}})
+            model_bad = mb
+        lb, lit_n, errt = lit_check(run.seed, tier)
+        if lb is None:
+            broken.append({'kind': 'broken-correspondence', 'obligation': 'unesc/lex_ok/line_unterminated vs CPython literal reading',
+                           'detail': 'cases.v did not evaluate: ' + errt})
+        elif lb:
+            broken.append({'kind': 'broken-correspondence', 'obligation': 'unesc/lex_ok/line_unterminated vs CPython literal reading',
+                           'detail': {'strings': lb[:10], 'n': len(lb)}})
+            lit_bad = lb
     known = {f['signature'] for f in run.findings if f.get('status') == 'finding'}
     reported = []
     for sig, lst in sorted(by_sig.items()):
@@ -967,32 +1011,6 @@ def main(tier):
                       signature=sig)
         reported.append({'signature': sig, 'n_failing_pairs': len(lst), 'status': 'VIOLATION'})
 
-    # ---- model vs implementation inside Coq
-    model_bad, where = [], []
-    lit_bad, lit_n = [], 0
-    if res['ok']:
-        mb, where, errt = model_check(cases, results, today.toordinal(), stats)
-        if mb is None:
-            broken.append({'kind': 'broken-correspondence', 'obligation': 'model_vs_impl(C14.Model, merchant_engine/merchant_utils)',
-                           'detail': 'cases.v did not evaluate: ' + errt})
-        elif mb:
-            (ci, label), codes = mb[0]
-            names = {1: 'generated text differs', 2: 'parsed-back rules differ', 3: 'regex table incomplete', 4: 'legacy classification differs',
-                     5: 'migrated classification differs'}
-            sub = results[ci] if label == 'file' else results[ci]['alone'][int(label[4:])]
-            broken.append({'kind': 'broken-correspondence', 'obligation': 'model_vs_impl(C14.Model, merchant_engine/merchant_utils)',
-                           'detail': {'what': [names.get(x, x) for x in sorted(set(codes))], 'sub_case': label, 'csv': cases[ci]['csv'],
-                                      'txns': cases[ci]['txns'], 'implementation': {k: sub.get(k) for k in ('content', 'load', 'legacy', 'migrated', 'engine_rules')},
-                                      'n_disagreeing_sub_cases': len(mb)}})
-            model_bad = mb
-        lb, lit_n, errt = lit_check(run.seed, tier)
-        if lb is None:
-            broken.append({'kind': 'broken-correspondence', 'obligation': 'unesc/lex_ok/line_unterminated vs CPython literal reading',
-                           'detail': 'cases.v did not evaluate: ' + errt})
-        elif lb:
-            broken.append({'kind': 'broken-correspondence', 'obligation': 'unesc/lex_ok/line_unterminated vs CPython literal reading',
-                           'detail': {'strings': lb[:10], 'n': len(lb)}})
-            lit_bad = lb
     unknown = [x for x in reported if x['status'] == 'VIOLATION']
     if broken and not unknown:
         run.violation('broken', {'kind': broken[0]['kind'], 'obligation': broken[0].get('obligation') or
@@ -1016,7 +1034,9 @@ def main(tier):
         'model_vs_impl_sub_cases_in_coq': len(where), 'model_vs_impl_txn_evaluations_in_coq': stats.get('model_txn_evals', 0),
         'model_disagreements': len(model_bad), 'literal_strings_vs_cpython': lit_n, 'literal_disagreements': len(lit_bad),
         're_case_law_checked': law_checked, 're_case_law_failed': law_failed,
-        'discards': {k: v for k, v in stats.items() if k != 'model_txn_evals'}, 'discarded_files': discards,
+        'discards': {k: v for k, v in stats.items() if k not in ('model_txn_evals', 'rules_inside_guard', 'rules_in_coq_files')},
+        'discarded_files': discards, 'failing_pairs_in_unaligned_files': UNALIGNED[0],
+        'generated_rules_inside_safe_rule_guard': [stats.get('rules_inside_guard', 0), stats.get('rules_in_coq_files', 0)],
         'fresh_process_per_file': len({r.get('pid') for r in results if r.get('pid')}),
         'impl_python': out.get('python')})
     run.finish()
